@@ -90,6 +90,7 @@ type e3Report struct {
 	NilPanics   int64          `json:"nil_panics_checked"`
 	Callbacks   int64          `json:"callbacks_checked"`
 	SnapsStable int64          `json:"snapshot_stability_checks"`
+	Hung        bool           `json:"hung"`
 }
 
 type e3Violation struct {
@@ -301,6 +302,9 @@ func runE3(prop, tier string) int {
 		}
 		rep.Violate(&Violation{Diag: "history: " + v.Oracle, Case: v.Mock + ": " + strings.Join(v.History, " ; "), Detail: v.Detail,
 			Features: []string{"mock:" + v.Mock}, Replay: map[string]any{"engine": "E3", "mock": v.Mock, "history": v.History, "oracle": v.Oracle}})
+	}
+	if er.Hung {
+		rep.Cap("the history driver stopped at a hang inside generated code; exploration incomplete")
 	}
 	other := 0
 	for _, v := range er.Violations {
